@@ -3,6 +3,7 @@ import Pyxv.Proofs.XmlRoundTrip
 import Pyxv.Proofs.C01Decls
 import Pyxv.Proofs.C02
 import Pyxv.Proofs.C04
+import Pyxv.Proofs.C03Text
 /-!
 # Theorems about the end-to-end composition `Pyxv.Convert.convert`
 
@@ -35,7 +36,8 @@ theorem erase_dpush (t : DItem) (st : DSt) : eraseSt (dpush t st) = push (Conver
   | nil => simp [dpush, push, eraseSt, eraseL_append, Convert.eraseL]
   | cons f fs => simp [dpush, push, eraseSt, eraseF, eraseL_append, Convert.eraseL]
 
-theorem erase_dpushOpt (t : Option QData) (st : DSt) : eraseSt (dpushOpt t st) = pushOpt t (eraseSt st) := by
+theorem erase_dpushOpt (t : Option QData) (hp : Pay) (st : DSt) :
+    eraseSt (dpushOpt t hp st) = pushOpt t (eraseSt st) := by
   cases t with
   | none => rfl
   | some d => simp [dpushOpt, pushOpt, erase_dpush, Convert.erase]
@@ -48,8 +50,8 @@ theorem dstep_erase (st : DSt) (n : Nat) (p : Pay) (k : RowK) :
   | q d other => simp [dstep, step, Except.map, erase_dpushOpt, erase_dpush, Convert.erase]
   | begin_ ct name bind helper =>
     simp only [dstep, step]
-    have h := erase_dpushOpt helper st
-    generalize dpushOpt helper st = st1 at h
+    have h := erase_dpushOpt helper (helperPay p) st
+    generalize dpushOpt helper (helperPay p) st = st1 at h
     obtain ⟨r1, f1⟩ := st1
     rw [← h]
     simp [Except.map, eraseSt, eraseF, Convert.eraseL]
@@ -108,13 +110,10 @@ theorem decorate_classify (lists : List Str) (n : Nat) (r : Cells) (k : RowK) (p
       · rename_i k' hk
         split at h
         · simp at h
-        · simp at h
         · split at h
-          · simp at h
-          · split at h
-            · simp at h; rw [hk, h.1]
-            · simp at h
           · simp at h; rw [hk, h.1]
+          · simp at h
+        · simp at h; rw [hk, h.1]
 
 theorem decorateAll_classifyAll (lists : List Str) : ∀ (rows : List Cells) (n : Nat) (ds : List ((Nat × RowK) × Pay)),
     decorateAll lists n rows = .ok ds → classifyAll lists n rows = .ok (ds.map (·.1))
@@ -144,12 +143,12 @@ structure Trace (wb : Workbook) (doc : Node) (f : Fields) (lists : List (Str × 
   hform : formOut f.name (lists.map (·.1)) rows [] = .ok o
   hpar : dparse drows = .ok ditems
   hmeta : metaKids rows [] = [iidQ]
-  hbinds : bindsOkL f.name (topNames ditems) [f.name] (dWithMeta f.name rows ditems) = true
+  hbinds : bindsOkL (elsOf f.name (dWithMeta f.name rows ditems)) [(f.name, .group)] (dWithMeta f.name rows ditems) = true
   hctl : ctlOkL ditems = true
   hdoc : doc = assemble f none (instNodes (defaultsOfL [f.name] ditems) [f.name] (ntKids o.inst))
-    ((Choices.staticInsts [] lists).map Choices.instNode ++
-      bindNodesL f.name (topNames ditems) [f.name] (dWithMeta f.name rows ditems))
-    (bodyNodesL [f.name] ditems)
+    ((Choices.staticInsts [] (othersApplied rows lists)).map Choices.instNode ++
+      bindNodesL (elsOf f.name (dWithMeta f.name rows ditems)) [(f.name, .group)] (dWithMeta f.name rows ditems))
+    (bodyNodesL (elsOf f.name (dWithMeta f.name rows ditems)) [f.name] ditems)
   hvalid : validDoc [] doc = true
 
 theorem convertDoc_trace (wb : Workbook) (doc : Node) (h : convertDoc wb = .ok doc) :
@@ -192,10 +191,10 @@ theorem convertDoc_trace (wb : Workbook) (doc : Node) (h : convertDoc wb = .ok d
                         · rename_i ditems hdi
                           split at h
                           · simp at h
-                          · rename_i hn
+                          · rename_i hm
                             split at h
                             · simp at h
-                            · rename_i hm
+                            · rename_i hs
                               split at h
                               · simp at h
                               · rename_i hb
@@ -203,14 +202,16 @@ theorem convertDoc_trace (wb : Workbook) (doc : Node) (h : convertDoc wb = .ok d
                                 · simp at h
                                 · rename_i hc
                                   split at h
-                                  · rename_i hv
-                                    simp only [Except.ok.injEq] at h
-                                    refine ⟨f, _, rows, drows, o, ditems, ⟨hf, ⟨key, hkey, hrows⟩, hdrows, ho, hdi, ?_, ?_, ?_, h.symm, ?_⟩⟩
-                                    · simpa [iidQ] using hm
-                                    · simpa using hb
-                                    · simpa using hc
-                                    · rw [← h]; exact hv
                                   · simp at h
+                                  · split at h
+                                    · rename_i hv
+                                      simp only [Except.ok.injEq] at h
+                                      refine ⟨f, _, rows, drows, o, ditems, ⟨hf, ⟨key, hkey, hrows⟩, hdrows, ho, hdi, ?_, ?_, ?_, h.symm, ?_⟩⟩
+                                      · simpa [iidQ] using hm
+                                      · simpa using hb
+                                      · simpa using hc
+                                      · rw [← h]; exact hv
+                                    · simp at h
 
 #print axioms convertDoc_trace
 
@@ -258,55 +259,115 @@ theorem isDom_choiceInst (i : Choices.Inst) : isDom (Choices.instNode i) = true 
     refine isDom_elem (by simp [attrKeysNodup]) (isDomKids_single (isDom_elem (by decide) (isDomKids_map _ _ fun it => ?_)))
     exact isDom_elem (by decide) (isDomKids_map _ _ fun kv => isDom_elem (by decide) (isDomKids_single (isDom_text _ _)))
 
-theorem isDom_bindNode (root : Str) (tops : List Str) (path : List Str) (q : Binds.Q) :
-    isDom (bindNode root tops path q) = true := isDom_pyNode _ _ _ isDomKids_nil
+theorem isDom_bindNode (els : List Refs.Chain) (ctx : Refs.Chain) (q : Binds.Q) :
+    isDom (bindNode els ctx q) = true := isDom_pyNode _ _ _ isDomKids_nil
+
+theorem isDom_dynSetOf (els : List Refs.Chain) (ctx : Refs.Chain) (r : Cells) (b : Bool) :
+    isDomKids (dynSetOf els ctx r b) = true := by
+  unfold dynSetOf
+  split
+  · split
+    · exact isDomKids_single (isDom_pyNode _ _ _ isDomKids_nil)
+    · exact isDomKids_nil
+  · exact isDomKids_nil
 
 mutual
-theorem isDom_bindNodes (root : Str) (tops : List Str) : ∀ (pre : List Str) (d : DItem),
-    isDomKids (bindNodes root tops pre d) = true
-  | pre, .q d p => by
-    unfold bindNodes
-    split
-    · exact isDomKids_single (isDom_bindNode ..)
-    · exact isDomKids_nil
-  | pre, .sec ct n b p ks => by
-    unfold bindNodes
-    rw [isDomKids_append, isDom_bindNodesL root tops (pre ++ [n]) ks, Bool.and_true]
-    split
-    · exact isDomKids_single (isDom_bindNode ..)
-    · exact isDomKids_nil
-theorem isDom_bindNodesL (root : Str) (tops : List Str) : ∀ (pre : List Str) (ds : List DItem),
-    isDomKids (bindNodesL root tops pre ds) = true
-  | _, [] => by unfold bindNodesL; exact isDomKids_nil
+theorem isDom_dynSets (els : List Refs.Chain) : ∀ (pre : List Str) (d : DItem), isDomKids (dynSets els pre d) = true
+  | pre, .q d p => by unfold dynSets; exact isDom_dynSetOf ..
+  | pre, .sec .rep n b p ks => by unfold dynSets; exact isDomKids_nil
+  | pre, .sec .group n b p ks => by unfold dynSets; exact isDom_dynSetsL els (pre ++ [n]) ks
+  | pre, .sec .loop n b p ks => by unfold dynSets; exact isDom_dynSetsL els (pre ++ [n]) ks
+theorem isDom_dynSetsL (els : List Refs.Chain) : ∀ (pre : List Str) (ds : List DItem),
+    isDomKids (dynSetsL els pre ds) = true
+  | _, [] => by unfold dynSetsL; exact isDomKids_nil
   | pre, k :: ks => by
-    unfold bindNodesL
-    rw [isDomKids_append, isDom_bindNodes root tops pre k, isDom_bindNodesL root tops pre ks]; rfl
+    unfold dynSetsL
+    rw [isDomKids_append, isDom_dynSets els pre k, isDom_dynSetsL els pre ks]; rfl
 end
 
-theorem isDom_labelNode (r : Cells) : isDom (labelNode r) = true := by
-  unfold labelNode
-  refine isDom_pyNode _ _ _ ?_
-  cases get r "label" with
-  | none => exact isDomKids_nil
-  | some s => exact isDomKids_single (isDom_text _ _)
+mutual
+theorem isDom_bindNodes (els : List Refs.Chain) : ∀ (pc : Refs.Chain) (d : DItem),
+    isDomKids (bindNodes els pc d) = true
+  | pc, .q d p => by
+    unfold bindNodes
+    rw [isDomKids_append]
+    have h2 : isDomKids (if inRep pc = true then [] else dynSetOf els (pc ++ [(d.name, .q)]) p.cells false) = true := by
+      split
+      · exact isDomKids_nil
+      · exact isDom_dynSetOf ..
+    rw [h2, Bool.and_true]
+    split
+    · exact isDomKids_single (isDom_bindNode ..)
+    · exact isDomKids_nil
+  | pc, .sec ct n b p ks => by
+    unfold bindNodes
+    rw [isDomKids_append, isDom_bindNodesL els (pc ++ [(n, kindOf ct)]) ks, Bool.and_true]
+    split
+    · exact isDomKids_single (isDom_bindNode ..)
+    · exact isDomKids_nil
+theorem isDom_bindNodesL (els : List Refs.Chain) : ∀ (pc : Refs.Chain) (ds : List DItem),
+    isDomKids (bindNodesL els pc ds) = true
+  | _, [] => by unfold bindNodesL; exact isDomKids_nil
+  | pc, k :: ks => by
+    unfold bindNodesL
+    rw [isDomKids_append, isDom_bindNodes els pc k, isDom_bindNodesL els pc ks]; rfl
+end
 
-theorem isDom_hintNode (r : Cells) : isDom (hintNode r) = true := by
-  unfold hintNode
-  refine isDom_pyNode _ _ _ ?_
-  cases get r "hint" with
-  | none => exact isDomKids_nil
-  | some s => exact isDomKids_single (isDom_text _ _)
+mutual
+theorem isDom_of_domOk : ∀ (n : Node), domOk n = true → isDom n = true
+  | .text _ _, _ => by simp [isDom]
+  | .elem t a ks, h => by
+    simp only [domOk, Bool.and_eq_true] at h
+    simp only [isDom, h.1, isDomKids_of_domOkL ks h.2, Bool.and_self]
+theorem isDomKids_of_domOkL : ∀ (ks : List Node), domOkL ks = true → isDomKids ks = true
+  | [], _ => by simp [isDomKids]
+  | k :: ks, h => by
+    simp only [domOkL, Bool.and_eq_true] at h
+    simp only [isDomKids, isDom_of_domOk k h.1, isDomKids_of_domOkL ks h.2, Bool.and_self]
+end
 
-theorem isDom_labelAndHint (r : Cells) : isDomKids (labelAndHint r) = true := by
+theorem isDom_emptyNode (tag : Str) : isDom (emptyNode tag) = true := isDom_pyNode _ _ _ isDomKids_nil
+
+theorem textOutcome_ok {els : List Refs.Chain} {path : List Str} {tag s : Str} {n : Node}
+    (h : textOutcome els path tag s = .ok n) : domOk n = true ∧ outputOnly n = true := by
+  unfold textOutcome at h
+  split at h
+  · simp at h
+  · split at h
+    · split at h
+      · rename_i hc
+        simp only [Chan.Outcome.ok.injEq] at h; subst h
+        simpa [Bool.and_eq_true] using hc
+      · simp at h
+    · rename_i hne
+      exact absurd h (by intro h'; exact hne _ h')
+
+theorem isDom_textNode (els : List Refs.Chain) (path : List Str) (tag : Str) (cell : Option Str) :
+    isDom (textNode els path tag cell) = true := by
+  unfold textNode
+  split
+  · exact isDom_emptyNode _
+  · split
+    · rename_i n hn; exact isDom_of_domOk n (textOutcome_ok hn).1
+    · exact isDom_emptyNode _
+
+theorem isDom_labelNode (els : List Refs.Chain) (path : List Str) (r : Cells) : isDom (labelNode els path r) = true :=
+  isDom_textNode ..
+
+theorem isDom_hintNode (els : List Refs.Chain) (path : List Str) (r : Cells) : isDom (hintNode els path r) = true :=
+  isDom_textNode ..
+
+theorem isDom_labelAndHint (els : List Refs.Chain) (path : List Str) (r : Cells) :
+    isDomKids (labelAndHint els path r) = true := by
   unfold labelAndHint
   rw [isDomKids_append]
-  have h1 : isDomKids (if (has r "label" || has r "hint") = true then [labelNode r] else []) = true := by
+  have h1 : isDomKids (if (has r "label" || has r "hint") = true then [labelNode els path r] else []) = true := by
     split
-    · exact isDomKids_single (isDom_labelNode r)
+    · exact isDomKids_single (isDom_labelNode ..)
     · exact isDomKids_nil
-  have h2 : isDomKids (if has r "hint" = true then [hintNode r] else []) = true := by
+  have h2 : isDomKids (if has r "hint" = true then [hintNode els path r] else []) = true := by
     split
-    · exact isDomKids_single (isDom_hintNode r)
+    · exact isDomKids_single (isDom_hintNode ..)
     · exact isDomKids_nil
   rw [h1, h2]; rfl
 
@@ -320,7 +381,7 @@ theorem isDom_itemsetNodes (r : Cells) : isDomKids (itemsetNodes r) = true := by
         (isDomKids_cons (isDom_pyNode _ _ _ isDomKids_nil) (isDomKids_single (isDom_pyNode _ _ _ isDomKids_nil))))
 
 mutual
-theorem isDom_bodyNodes : ∀ (pre : List Str) (d : DItem), isDomKids (bodyNodes pre d) = true
+theorem isDom_bodyNodes (els : List Refs.Chain) : ∀ (pre : List Str) (d : DItem), isDomKids (bodyNodes els pre d) = true
   | pre, .q d p => by
     unfold bodyNodes
     split
@@ -329,37 +390,39 @@ theorem isDom_bodyNodes : ∀ (pre : List Str) (d : DItem), isDomKids (bodyNodes
     · exact isDomKids_nil
   | pre, .sec .rep n b p ks => by
     unfold bodyNodes
-    exact isDomKids_single (isDom_pyNode _ _ _ (isDomKids_cons (isDom_labelNode _)
-      (isDomKids_single (isDom_pyNode _ _ _ (isDom_bodyNodesL (pre ++ [n]) ks)))))
+    exact isDomKids_single (isDom_pyNode _ _ _ (isDomKids_cons (isDom_labelNode ..)
+      (isDomKids_single (isDom_pyNode _ _ _
+        (by rw [isDomKids_append, isDom_bodyNodesL els (pre ++ [n]) ks, isDom_dynSetsL els (pre ++ [n]) ks]; rfl)))))
   | pre, .sec .group n b p ks => by
     unfold bodyNodes
     refine isDomKids_single (isDom_pyNode _ _ _ ?_)
-    rw [isDomKids_append, isDom_bodyNodesL (pre ++ [n]) ks, Bool.and_true]
+    rw [isDomKids_append, isDom_bodyNodesL els (pre ++ [n]) ks, Bool.and_true]
     split
-    · exact isDomKids_single (isDom_labelNode _)
+    · exact isDomKids_single (isDom_labelNode ..)
     · exact isDomKids_nil
   | pre, .sec .loop n b p ks => by
     unfold bodyNodes
     refine isDomKids_single (isDom_pyNode _ _ _ ?_)
-    rw [isDomKids_append, isDom_bodyNodesL (pre ++ [n]) ks, Bool.and_true]
+    rw [isDomKids_append, isDom_bodyNodesL els (pre ++ [n]) ks, Bool.and_true]
     split
-    · exact isDomKids_single (isDom_labelNode _)
+    · exact isDomKids_single (isDom_labelNode ..)
     · exact isDomKids_nil
-theorem isDom_bodyNodesL : ∀ (pre : List Str) (ds : List DItem), isDomKids (bodyNodesL pre ds) = true
+theorem isDom_bodyNodesL (els : List Refs.Chain) : ∀ (pre : List Str) (ds : List DItem),
+    isDomKids (bodyNodesL els pre ds) = true
   | _, [] => by unfold bodyNodesL; exact isDomKids_nil
   | pre, k :: ks => by
     unfold bodyNodesL
-    rw [isDomKids_append, isDom_bodyNodes pre k, isDom_bodyNodesL pre ks]; rfl
+    rw [isDomKids_append, isDom_bodyNodes els pre k, isDom_bodyNodesL els pre ks]; rfl
 end
 
 theorem trace_partsDom {wb doc f lists rows drows o ditems} (_T : Trace wb doc f lists rows drows o ditems) :
     PartsDom none (instNodes (defaultsOfL [f.name] ditems) [f.name] (ntKids o.inst))
-      ((Choices.staticInsts [] lists).map Choices.instNode ++
-        bindNodesL f.name (topNames ditems) [f.name] (dWithMeta f.name rows ditems))
-      (bodyNodesL [f.name] ditems) :=
+      ((Choices.staticInsts [] (othersApplied rows lists)).map Choices.instNode ++
+        bindNodesL (elsOf f.name (dWithMeta f.name rows ditems)) [(f.name, .group)] (dWithMeta f.name rows ditems))
+      (bodyNodesL (elsOf f.name (dWithMeta f.name rows ditems)) [f.name] ditems) :=
   ⟨fun ks h => (by cases h), isDom_instNodes _ _ _,
    (by rw [isDomKids_append, isDomKids_map _ _ isDom_choiceInst, isDom_bindNodesL]; rfl),
-   isDom_bodyNodesL _ _⟩
+   isDom_bodyNodesL _ _ _⟩
 
 /-! ## 4. C15 and C01 for the composed conversion -/
 
@@ -708,8 +771,8 @@ theorem ctlRefsL_append (a b : List Node) : ctlRefsL (a ++ b) = ctlRefsL a ++ ct
   | nil => simp [ctlRefsL]
   | cons x xs ih => simp [ctlRefsL, ih]
 
-theorem bindAttrs_clean {root : Str} {tops : List Str} {path : List Str} {q : Binds.Q} {a : List (Str × Str)}
-    (h : bindAttrs root tops path q = some a) : a.all (fun kv => attrLocal kv.1 != l!"nodeset") = true := by
+theorem bindAttrs_clean {els : List Refs.Chain} {ctx : Refs.Chain} {q : Binds.Q} {a : List (Str × Str)}
+    (h : bindAttrs els ctx q = some a) : a.all (fun kv => attrLocal kv.1 != l!"nodeset") = true := by
   unfold bindAttrs at h
   split at h
   · split at h
@@ -717,8 +780,8 @@ theorem bindAttrs_clean {root : Str} {tops : List Str} {path : List Str} {q : Bi
     · simp at h
   · simp at h
 
-theorem bindRef_bindNode (root : Str) (tops : List Str) (path : List Str) (q : Binds.Q)
-    (h : (bindAttrs root tops path q).isSome = true) : bindRef (bindNode root tops path q) = some (xpathStr path) := by
+theorem bindRef_bindNode (els : List Refs.Chain) (ctx : Refs.Chain) (q : Binds.Q)
+    (h : (bindAttrs els ctx q).isSome = true) : bindRef (bindNode els ctx q) = some (xpathStr ctx.path) := by
   obtain ⟨a, ha⟩ := Option.isSome_iff_exists.mp h
   have hc := bindAttrs_clean ha
   simp only [bindNode, pyNode, bindRef, if_true, ha, Option.getD_some]
@@ -726,35 +789,47 @@ theorem bindRef_bindNode (root : Str) (tops : List Str) (path : List Str) (q : B
   have e : attrLocal (l!"nodeset") = l!"nodeset" := by decide
   rw [e]; exact hc
 
+theorem path_snoc (pc : Refs.Chain) (n : Str) (k : Refs.Kind) : Refs.Chain.path (pc ++ [(n, k)]) = pc.path ++ [n] := by
+  simp [Refs.Chain.path]
+
 mutual
-theorem bindNodes_refs (root : Str) (tops : List Str) : ∀ (pre : List Str) (d : DItem),
-    bindsOk root tops pre d = true →
-    (bindNodes root tops pre d).filterMap bindRef = (bindPaths pre (Convert.erase d)).map xpathStr
-  | pre, .q d p, h => by
+theorem bindNodes_refs (els : List Refs.Chain) : ∀ (pc : Refs.Chain) (d : DItem),
+    bindsOk els pc d = true →
+    (bindNodes els pc d).filterMap bindRef = (bindPaths pc.path (Convert.erase d)).map xpathStr
+  | pc, .q d p, h => by
     simp only [bindsOk, Bool.or_eq_true, Bool.not_eq_true'] at h
-    simp only [bindNodes, Convert.erase, bindPaths]
+    have hdyn : (if inRep pc = true then [] else dynSetOf els (pc ++ [(d.name, .q)]) p.cells false).filterMap bindRef = [] := by
+      split
+      · rfl
+      · unfold dynSetOf
+        split
+        · split
+          · simp only [setvalueNode, pyNode, List.filterMap_cons, bindRef]; rw [if_neg (by decide)]; rfl
+          · rfl
+        · rfl
+    simp only [bindNodes, Convert.erase, bindPaths, List.filterMap_append, hdyn, List.append_nil]
     cases hb : d.bind with
     | false => simp
     | true =>
       have h' := h.resolve_left (by simp [hb])
-      simp [List.filterMap, bindRef_bindNode root tops _ _ h']
-  | pre, .sec ct n b p ks, h => by
+      simp [List.filterMap, bindRef_bindNode els _ _ h', path_snoc]
+  | pc, .sec ct n b p ks, h => by
     simp only [bindsOk, Bool.and_eq_true, Bool.or_eq_true, Bool.not_eq_true'] at h
     simp only [bindNodes, Convert.erase, bindPaths, List.filterMap_append, List.map_append,
-      bindNodesL_refs root tops (pre ++ [n]) ks h.2]
+      bindNodesL_refs els (pc ++ [(n, kindOf ct)]) ks h.2, path_snoc]
     cases hb : b with
     | false => simp
     | true =>
       have h' := h.1.resolve_left (by simp [hb])
-      simp [List.filterMap, bindRef_bindNode root tops _ _ h']
-theorem bindNodesL_refs (root : Str) (tops : List Str) : ∀ (pre : List Str) (ds : List DItem),
-    bindsOkL root tops pre ds = true →
-    (bindNodesL root tops pre ds).filterMap bindRef = (bindPathsL pre (Convert.eraseL ds)).map xpathStr
+      simp [List.filterMap, bindRef_bindNode els _ _ h', path_snoc]
+theorem bindNodesL_refs (els : List Refs.Chain) : ∀ (pc : Refs.Chain) (ds : List DItem),
+    bindsOkL els pc ds = true →
+    (bindNodesL els pc ds).filterMap bindRef = (bindPathsL pc.path (Convert.eraseL ds)).map xpathStr
   | _, [], _ => by simp [bindNodesL, Convert.eraseL, bindPathsL]
-  | pre, k :: ks, h => by
+  | pc, k :: ks, h => by
     simp only [bindsOkL, Bool.and_eq_true] at h
     simp only [bindNodesL, Convert.eraseL, bindPathsL, List.filterMap_append, List.map_append,
-      bindNodes_refs root tops pre k h.1, bindNodesL_refs root tops pre ks h.2]
+      bindNodes_refs els pc k h.1, bindNodesL_refs els pc ks h.2]
 end
 
 theorem ctlRefs_nonctl (t : Str) (a : List (Str × Str)) (ks : List Node) (h : controlTags.contains t = false) :
@@ -768,33 +843,82 @@ theorem ctlRefs_ctl (t : Str) (a : List (Str × Str)) (ks : List Node) (h : cont
 theorem ctlRefsL_text (b : Bool) (s : Str) : ctlRefsL [.text b s] = [] := by
   simp only [ctlRefsL, ctlRefs, List.append_nil]
 
-theorem ctlRefs_labelNode (r : Cells) : ctlRefs (labelNode r) = [] := by
-  have h : controlTags.contains (l!"label") = false := by decide
-  unfold labelNode pyNode
-  rw [ctlRefs_nonctl _ _ _ h]
-  cases get r "label" with
-  | none => rfl
-  | some s => exact ctlRefsL_text _ _
-
-theorem ctlRefs_hintNode (r : Cells) : ctlRefs (hintNode r) = [] := by
-  have h : controlTags.contains (l!"hint") = false := by decide
-  unfold hintNode pyNode
-  rw [ctlRefs_nonctl _ _ _ h]
-  cases get r "hint" with
-  | none => rfl
-  | some s => exact ctlRefsL_text _ _
-
 theorem ctlRefsL_single (n : Node) : ctlRefsL [n] = ctlRefs n := by
   simp only [ctlRefsL, List.append_nil]
 
-theorem ctlRefsL_labelAndHint (r : Cells) : ctlRefsL (labelAndHint r) = [] := by
+theorem ctlRefsL_outputKids : ∀ (ks : List Node), ks.all outputKid = true → ctlRefsL ks = []
+  | [], _ => rfl
+  | k :: ks, h => by
+    simp only [List.all_cons, Bool.and_eq_true] at h
+    have hk : ctlRefs k = [] := by
+      match k, h.1 with
+      | .text _ _, _ => simp [ctlRefs]
+      | .elem t a [], ht =>
+        have : t = l!"output" := by simpa [outputKid] using ht
+        subst this
+        rw [ctlRefs_nonctl _ _ _ (by decide)]; rfl
+    simp only [ctlRefsL, hk, ctlRefsL_outputKids ks h.2, List.append_nil]
+
+theorem ctlRefs_emptyNode (tag : Str) (h : controlTags.contains tag = false) : ctlRefs (emptyNode tag) = [] := by
+  unfold emptyNode pyNode
+  rw [ctlRefs_nonctl _ _ _ h]; rfl
+
+/-- the mixed channel builds an element with the tag it was given -/
+theorem mixedChannel_tag {refs : List (Str × Str)} {tag s : Str} {n : Node} (h : Chan.mixedChannel refs tag s = .ok n) :
+    ∃ a ks, n = .elem tag a ks := by
+  unfold Chan.mixedChannel at h
+  split at h
+  · split at h
+    · simp only [Chan.Outcome.ok.injEq] at h
+      rename_i n' hp
+      unfold Chan.nodeParsed at hp
+      split at hp
+      · simp only [Option.some.injEq] at hp; exact ⟨_, _, by rw [← h, ← hp]⟩
+      · simp at hp
+    · simp at h
+  · simp only [Chan.Outcome.ok.injEq, Chan.nodeText] at h; exact ⟨_, _, h.symm⟩
+  · simp at h
+  · simp at h
+  · simp at h
+
+theorem ctlRefs_textNode (els : List Refs.Chain) (path : List Str) (tag : Str) (cell : Option Str)
+    (h : controlTags.contains tag = false) : ctlRefs (textNode els path tag cell) = [] := by
+  unfold textNode
+  split
+  · exact ctlRefs_emptyNode tag h
+  · split
+    · rename_i s n hn
+      have ho := (textOutcome_ok hn).2
+      have htag : ∃ a ks, n = .elem tag a ks := by
+        unfold textOutcome at hn
+        split at hn
+        · simp at hn
+        · split at hn
+          · rename_i n' hm
+            split at hn
+            · simp only [Chan.Outcome.ok.injEq] at hn; subst hn; exact mixedChannel_tag hm
+            · simp at hn
+          · rename_i hne; exact absurd hn (by intro h'; exact hne _ h')
+      obtain ⟨a, ks, rfl⟩ := htag
+      rw [ctlRefs_nonctl _ _ _ h]
+      exact ctlRefsL_outputKids ks (by simpa only [outputOnly] using ho)
+    · exact ctlRefs_emptyNode tag h
+
+theorem ctlRefs_labelNode (els : List Refs.Chain) (path : List Str) (r : Cells) : ctlRefs (labelNode els path r) = [] :=
+  ctlRefs_textNode _ _ _ _ (by decide)
+
+theorem ctlRefs_hintNode (els : List Refs.Chain) (path : List Str) (r : Cells) : ctlRefs (hintNode els path r) = [] :=
+  ctlRefs_textNode _ _ _ _ (by decide)
+
+theorem ctlRefsL_labelAndHint (els : List Refs.Chain) (path : List Str) (r : Cells) :
+    ctlRefsL (labelAndHint els path r) = [] := by
   unfold labelAndHint
   rw [ctlRefsL_append]
-  have h1 : ctlRefsL (if (has r "label" || has r "hint") = true then [labelNode r] else []) = [] := by
+  have h1 : ctlRefsL (if (has r "label" || has r "hint") = true then [labelNode els path r] else []) = [] := by
     split
     · rw [ctlRefsL_single, ctlRefs_labelNode]
     · rfl
-  have h2 : ctlRefsL (if has r "hint" = true then [hintNode r] else []) = [] := by
+  have h2 : ctlRefsL (if has r "hint" = true then [hintNode els path r] else []) = [] := by
     split
     · rw [ctlRefsL_single, ctlRefs_hintNode]
     · rfl
@@ -847,9 +971,38 @@ theorem last_attrs (v : Str) (a : List (Str × Str)) (h : cleanAttrs a = true) :
     have : attrLocal (l!"ref") != attrLocal (l!"nodeset") := by decide
     simp only [List.all_cons, List.all_nil, this]; rfl
 
+theorem cleanAttrs_subAttrs (els : List Refs.Chain) (ctx : Refs.Chain) (a : List (Str × Str)) :
+    cleanAttrs (Convert.subAttrs els ctx a) = cleanAttrs a := by
+  unfold cleanAttrs Convert.subAttrs
+  rw [List.all_map]; rfl
+
+theorem ctlRefsL_dynSetOf (els : List Refs.Chain) (ctx : Refs.Chain) (r : Cells) (b : Bool) :
+    ctlRefsL (dynSetOf els ctx r b) = [] := by
+  unfold dynSetOf
+  split
+  · split
+    · simp only [setvalueNode, pyNode, ctlRefsL_single]
+      rw [ctlRefs_nonctl _ _ _ (by decide)]; rfl
+    · rfl
+  · rfl
+
 mutual
-theorem bodyNodes_refs : ∀ (pre : List Str) (d : DItem), ctlOk d = true →
-    ctlRefsL (bodyNodes pre d) = (bodyPaths pre (Convert.erase d)).map xpathStr
+theorem ctlRefsL_dynSets (els : List Refs.Chain) : ∀ (pre : List Str) (d : DItem), ctlRefsL (dynSets els pre d) = []
+  | pre, .q d p => by unfold dynSets; exact ctlRefsL_dynSetOf ..
+  | pre, .sec .rep n b p ks => by unfold dynSets; rfl
+  | pre, .sec .group n b p ks => by unfold dynSets; exact ctlRefsL_dynSetsL els (pre ++ [n]) ks
+  | pre, .sec .loop n b p ks => by unfold dynSets; exact ctlRefsL_dynSetsL els (pre ++ [n]) ks
+theorem ctlRefsL_dynSetsL (els : List Refs.Chain) : ∀ (pre : List Str) (ds : List DItem),
+    ctlRefsL (dynSetsL els pre ds) = []
+  | _, [] => by unfold dynSetsL; rfl
+  | pre, k :: ks => by
+    unfold dynSetsL
+    rw [ctlRefsL_append, ctlRefsL_dynSets els pre k, ctlRefsL_dynSetsL els pre ks]; rfl
+end
+
+mutual
+theorem bodyNodes_refs (els : List Refs.Chain) : ∀ (pre : List Str) (d : DItem), ctlOk d = true →
+    ctlRefsL (bodyNodes els pre d) = (bodyPaths pre (Convert.erase d)).map xpathStr
   | pre, .q d p, h => by
     simp only [ctlOk, Bool.and_eq_true, Bool.or_eq_true, Bool.not_eq_true'] at h
     simp only [bodyNodes, Convert.erase, bodyPaths]
@@ -865,23 +1018,24 @@ theorem bodyNodes_refs : ∀ (pre : List Str) (d : DItem), ctlOk d = true →
       rfl
   | pre, .sec .rep n b p ks, h => by
     simp only [ctlOk, Bool.and_eq_true] at h
-    have hcl : cleanAttrs p.attrs = true := h.1
-    obtain ⟨e1, e2⟩ := head_attrs (l!"nodeset") (l!"ref") (xpathStr (pre ++ [n])) p.attrs
-      (clean_nodeset hcl) (clean_ref hcl) (by decide)
+    have hcl : cleanAttrs (Convert.subAttrs els (ctxOf els (pre ++ [n])) p.attrs) = true := by
+      rw [cleanAttrs_subAttrs]; exact h.1
+    obtain ⟨e1, e2⟩ := head_attrs (l!"nodeset") (l!"ref") (xpathStr (pre ++ [n]))
+      (Convert.subAttrs els (ctxOf els (pre ++ [n])) p.attrs) (clean_nodeset hcl) (clean_ref hcl) (by decide)
     obtain ⟨g1, g2⟩ := head_attrs (l!"ref") (l!"nodeset") (xpathStr (pre ++ [n])) [] rfl rfl (by decide)
     have hg : controlTags.contains (l!"group") = true := by decide
     have hr : controlTags.contains (l!"repeat") = true := by decide
     simp only [bodyNodes, Convert.erase, bodyPaths, ctlRefsL_single, pyNode, List.map]
     rw [ctlRefs_ctl _ _ _ hg, g1, g2]
     simp only [ctlRefsL, ctlRefs_labelNode, List.nil_append, List.append_nil]
-    rw [ctlRefs_ctl _ _ _ hr, e1, e2, bodyNodesL_refs (pre ++ [n]) ks h.2]
-    rfl
+    rw [ctlRefs_ctl _ _ _ hr, e1, e2, ctlRefsL_append, bodyNodesL_refs els (pre ++ [n]) ks h.2, ctlRefsL_dynSetsL]
+    simp
   | pre, .sec .group n b p ks, h => by
     simp only [ctlOk, Bool.and_eq_true] at h
     obtain ⟨e1, e2⟩ := last_attrs (xpathStr (pre ++ [n])) p.attrs h.1
     have hg : controlTags.contains (l!"group") = true := by decide
     simp only [bodyNodes, Convert.erase, bodyPaths, ctlRefsL_single, pyNode, List.map]
-    rw [ctlRefs_ctl _ _ _ hg, e1, e2, ctlRefsL_append, bodyNodesL_refs (pre ++ [n]) ks h.2]
+    rw [ctlRefs_ctl _ _ _ hg, e1, e2, ctlRefsL_append, bodyNodesL_refs els (pre ++ [n]) ks h.2]
     split
     · rw [ctlRefsL_single, ctlRefs_labelNode]; rfl
     · rfl
@@ -890,17 +1044,17 @@ theorem bodyNodes_refs : ∀ (pre : List Str) (d : DItem), ctlOk d = true →
     obtain ⟨e1, e2⟩ := last_attrs (xpathStr (pre ++ [n])) p.attrs h.1
     have hg : controlTags.contains (l!"group") = true := by decide
     simp only [bodyNodes, Convert.erase, bodyPaths, ctlRefsL_single, pyNode, List.map]
-    rw [ctlRefs_ctl _ _ _ hg, e1, e2, ctlRefsL_append, bodyNodesL_refs (pre ++ [n]) ks h.2]
+    rw [ctlRefs_ctl _ _ _ hg, e1, e2, ctlRefsL_append, bodyNodesL_refs els (pre ++ [n]) ks h.2]
     split
     · rw [ctlRefsL_single, ctlRefs_labelNode]; rfl
     · rfl
-theorem bodyNodesL_refs : ∀ (pre : List Str) (ds : List DItem), ctlOkL ds = true →
-    ctlRefsL (bodyNodesL pre ds) = (bodyPathsL pre (Convert.eraseL ds)).map xpathStr
+theorem bodyNodesL_refs (els : List Refs.Chain) : ∀ (pre : List Str) (ds : List DItem), ctlOkL ds = true →
+    ctlRefsL (bodyNodesL els pre ds) = (bodyPathsL pre (Convert.eraseL ds)).map xpathStr
   | _, [], _ => by simp [bodyNodesL, Convert.eraseL, bodyPathsL, ctlRefsL]
   | pre, k :: ks, h => by
     simp only [ctlOkL, Bool.and_eq_true] at h
     simp only [bodyNodesL, Convert.eraseL, bodyPathsL, ctlRefsL_append, List.map_append,
-      bodyNodes_refs pre k h.1, bodyNodesL_refs pre ks h.2]
+      bodyNodes_refs els pre k h.1, bodyNodesL_refs els pre ks h.2]
 end
 
 theorem erase_dWithMeta (root : Str) (rows : List Cells) (ds : List DItem) :
@@ -952,12 +1106,12 @@ theorem bindRefs_doc {wb doc f lists rows drows o ditems} (T : Trace wb doc f li
   rw [bindRefs, T.hdoc, modelKidsOf_assemble]
   unfold Asm.modelKids
   simp only [itextPart, List.append_nil, List.filterMap_append, List.filterMap_cons, hsub, hinst,
-    List.nil_append, bindRef_choiceInst, bindNodesL_refs _ _ _ _ T.hbinds, erase_dWithMeta, hi, hb]
+    List.nil_append, bindRef_choiceInst, bindNodesL_refs _ _ _ T.hbinds, erase_dWithMeta, hi, hb, Refs.Chain.path, List.map]
 
 theorem ctlRefs_doc {wb doc f lists rows drows o ditems} (T : Trace wb doc f lists rows drows o ditems) :
     ctlRefsL (bodyKidsOf doc) = o.body.map xpathStr := by
   obtain ⟨hi, -, -, hbody⟩ := trace_items T
-  rw [T.hdoc, bodyKidsOf_assemble, bodyNodesL_refs _ _ T.hctl, hi, hbody]
+  rw [T.hdoc, bodyKidsOf_assemble, bodyNodesL_refs _ _ _ T.hctl, hi, hbody]
 
 /-- **C02 for the whole conversion (document level).**  In the document the composed model produces, the
     `nodeset` of every `<bind>` of the model and the `ref` / `nodeset` of every body control (questions, groups,
@@ -987,6 +1141,169 @@ theorem convert_c02_partial (wb : Workbook) (doc : Node) (h : convertDoc wb = .o
 
 #print axioms convert_c02_partial
 
+
+/-! ## 6b. C03: every `${name}` of a bind value resolves to the named element -/
+
+/-- a successful substitution answered every occurrence the regex finds -/
+theorem substRefs_refs_ok (repl : Bool → Str → Option Str) : ∀ (fuel : Nat) (s out : Str),
+    Refs.substRefs repl fuel s = some out → ∀ r ∈ Refs.findRefs fuel s, (repl r.1 r.2).isSome = true
+  | 0, _, _, h => by simp [Refs.substRefs] at h
+  | fuel + 1, [], _, _ => by simp [Refs.findRefs]
+  | fuel + 1, c :: r, out, h => by
+    rw [Refs.substRefs] at h
+    rw [Refs.findRefs]
+    split at h
+    · rename_i hc
+      simp only [hc, and_self, ↓reduceIte]
+      split at h
+      · rename_i ls name rest hm
+        try simp only [hm]
+        cases hr : repl ls name with
+        | none => simp [hr] at h
+        | some v =>
+          cases hs : Refs.substRefs repl fuel rest with
+          | none => simp [hr, hs] at h
+          | some o =>
+            intro x hx
+            simp only [List.mem_cons] at hx
+            rcases hx with rfl | hx
+            · simp [hr]
+            · exact substRefs_refs_ok repl fuel rest o hs x hx
+      · rename_i hm
+        try simp only [hm]
+        cases hs : Refs.substRefs repl fuel r with
+        | none => simp [hs] at h
+        | some o => exact substRefs_refs_ok repl fuel r o hs
+    · rename_i hc
+      simp only [hc, ↓reduceIte]
+      cases hs : Refs.substRefs repl fuel r with
+      | none => simp [hs] at h
+      | some o => exact substRefs_refs_ok repl fuel r o hs
+
+/-- the references of the text `s`, read from the element `ctx`, all reach the element they name -/
+def HolesResolve (els : List Refs.Chain) (ctx : Refs.Chain) (s : Str) : Prop :=
+  ∀ r ∈ Refs.findRefs (s.length + 1) s, ∃ cur e t,
+    Refs.refFor els (some ctx) r.2 { lastSaved := r.1 } = .ok cur e ∧
+    els.filter (Refs.named r.2) = [t] ∧ Refs.resolve ctx.path e = some t.path
+
+theorem insertXpaths_holes (els : List Refs.Chain) (hv : ∀ t ∈ els, Refs.GoodNames t.path)
+    (ctx : Refs.Chain) (hc : Refs.GoodNames ctx.path) (s out : Str)
+    (h : Refs.insertXpaths els (some ctx) {} s = some out) : HolesResolve els ctx s := by
+  intro r hr
+  have hok := substRefs_refs_ok _ _ _ _ h r hr
+  cases hf : Refs.refFor els (some ctx) r.2 { lastSaved := r.1 } with
+  | ok cur e =>
+    obtain ⟨t, ht, hres⟩ := Refs.ref_resolves els hv ctx hc r.2 _ cur e hf
+    exact ⟨cur, e, t, rfl, ht, hres⟩
+  | unknown n => simp [hf, Refs.Out.text] at hok
+  | ambiguous n => simp [hf, Refs.Out.text] at hok
+
+theorem attrsOfR_holes (els : List Refs.Chain) (hv : ∀ t ∈ els, Refs.GoodNames t.path)
+    (ctx : Refs.Chain) (hc : Refs.GoodNames ctx.path) (path : Str) : ∀ (b : Binds.BindDict) (a : List (Str × Str)),
+    attrsOfR els ctx path b = some a →
+    ∀ kv ∈ b, ∃ s s', Binds.convVal path kv.1 kv.2 = some s ∧ Refs.insertXpaths els (some ctx) {} s = some s' ∧
+      (kv.1, s') ∈ a ∧ HolesResolve els ctx s
+  | [], _, _ => by simp
+  | (k, v) :: rest, a, h => by
+    simp only [attrsOfR] at h
+    split at h
+    · simp at h
+    · rename_i s hs
+      split at h
+      · rename_i s' r hi hr
+        simp only [Option.some.injEq] at h; subst h
+        intro kv hkv
+        simp only [List.mem_cons] at hkv
+        rcases hkv with rfl | hkv
+        · exact ⟨s, s', hs, hi, by simp, insertXpaths_holes els hv ctx hc s s' hi⟩
+        · obtain ⟨s1, s1', h1, h2, h3, h4⟩ := attrsOfR_holes els hv ctx hc path rest r hr kv hkv
+          exact ⟨s1, s1', h1, h2, by simp [h3], h4⟩
+      · simp at h
+
+/-- **C03 for a bind of the conversion.**  When the bind of the element `ctx` is produced (`bindAttrs … = some a`),
+    every entry of its bind dict reached `a` with its references substituted by `Refs.refFor`, and every `${name}`
+    of the entry — absolute or relative, any depth of groups and repeats — evaluated from `ctx`'s node reaches the
+    one element called `name`.  From `C03.ref_resolves`. -/
+theorem bind_holes_resolve (els : List Refs.Chain) (hv : ∀ t ∈ els, Refs.GoodNames t.path)
+    (ctx : Refs.Chain) (hc : Refs.GoodNames ctx.path) (q : Binds.Q) (a : List (Str × Str))
+    (h : bindAttrs els ctx q = some a) :
+    ∃ b, bindDict q = some b ∧ ∀ kv ∈ b, ∃ s s', Binds.convVal ctx.xpath kv.1 kv.2 = some s ∧
+      Refs.insertXpaths els (some ctx) {} s = some s' ∧ (kv.1, s') ∈ a ∧ HolesResolve els ctx s := by
+  unfold bindAttrs at h
+  cases hb : bindDict q with
+  | none => simp [hb] at h
+  | some b =>
+    simp only [hb, Option.bind_some] at h
+    split at h
+    · rename_i a' ha
+      split at h
+      · simp only [Option.some.injEq] at h; subst h
+        exact ⟨b, rfl, attrsOfR_holes els hv ctx hc _ b a' ha⟩
+      · simp at h
+    · simp at h
+
+mutual
+/-- the (chain, bind source) of every element of the walk that has a bind -/
+def bindElems (pc : Refs.Chain) : DItem → List (Refs.Chain × Binds.Q)
+  | .q d p => if d.bind then [(pc ++ [(d.name, .q)], p.bq)] else []
+  | .sec ct n b p ks => (if b then [(pc ++ [(n, kindOf ct)], p.bq)] else []) ++ bindElemsL (pc ++ [(n, kindOf ct)]) ks
+def bindElemsL (pc : Refs.Chain) : List DItem → List (Refs.Chain × Binds.Q)
+  | [] => []
+  | k :: ks => bindElems pc k ++ bindElemsL pc ks
+end
+
+mutual
+theorem bindsOk_elems (els : List Refs.Chain) : ∀ (pc : Refs.Chain) (d : DItem), bindsOk els pc d = true →
+    ∀ cq ∈ bindElems pc d, (bindAttrs els cq.1 cq.2).isSome = true
+  | pc, .q d p, h => by
+    simp only [bindsOk, Bool.or_eq_true, Bool.not_eq_true'] at h
+    simp only [bindElems]
+    cases hb : d.bind with
+    | false => simp
+    | true => simpa using h.resolve_left (by simp [hb])
+  | pc, .sec ct n b p ks, h => by
+    simp only [bindsOk, Bool.and_eq_true, Bool.or_eq_true, Bool.not_eq_true'] at h
+    simp only [bindElems, List.mem_append]
+    intro cq hcq
+    rcases hcq with hcq | hcq
+    · cases hb : b with
+      | false => simp [hb] at hcq
+      | true =>
+        simp only [hb, if_true, List.mem_singleton] at hcq; subst hcq
+        exact h.1.resolve_left (by simp [hb])
+    · exact bindsOkL_elems els _ ks h.2 cq hcq
+theorem bindsOkL_elems (els : List Refs.Chain) : ∀ (pc : Refs.Chain) (ds : List DItem), bindsOkL els pc ds = true →
+    ∀ cq ∈ bindElemsL pc ds, (bindAttrs els cq.1 cq.2).isSome = true
+  | _, [], _ => by simp [bindElemsL]
+  | pc, k :: ks, h => by
+    simp only [bindsOkL, Bool.and_eq_true] at h
+    simp only [bindElemsL, List.mem_append]
+    intro cq hcq
+    rcases hcq with hcq | hcq
+    · exact bindsOk_elems els pc k h.1 cq hcq
+    · exact bindsOkL_elems els pc ks h.2 cq hcq
+end
+
+/-- **C03 for the whole conversion** (`_partial`: stated on the bind values of the run, with the `GoodNames`
+    facts of `Survey.validate` — names non-empty and without `/` — as hypotheses on the element list instead of derived
+    from `is_xml_tag`; label / hint outputs, dynamic defaults and `jr:count` go through the same `Refs.insertXpaths`
+    but are not covered by this statement).  In a successful conversion every bind of every element (generated
+    `_count` / `_other` / `instanceID` included) carries its dict entries with all references resolved by
+    `Refs.refFor`, and each reference, evaluated from the element's node, reaches the element it names. -/
+theorem convert_c03_partial (wb : Workbook) (doc : Node) (h : convertDoc wb = .ok doc) :
+    ∃ (els : List Refs.Chain) (root : Str) (dall : List DItem), els = elsOf root dall ∧
+      ((∀ t ∈ els, Refs.GoodNames t.path) → ∀ cq ∈ bindElemsL [(root, .group)] dall, Refs.GoodNames cq.1.path →
+        ∃ a b, bindAttrs els cq.1 cq.2 = some a ∧ bindDict cq.2 = some b ∧
+          ∀ kv ∈ b, ∃ s s', Binds.convVal cq.1.xpath kv.1 kv.2 = some s ∧
+            Refs.insertXpaths els (some cq.1) {} s = some s' ∧ (kv.1, s') ∈ a ∧ HolesResolve els cq.1 s) := by
+  obtain ⟨f, lists, rows, drows, o, ditems, T⟩ := convertDoc_trace wb doc h
+  refine ⟨_, f.name, dWithMeta f.name rows ditems, rfl, ?_⟩
+  intro hv cq hcq hc
+  obtain ⟨a, ha⟩ := Option.isSome_iff_exists.mp (bindsOkL_elems _ _ _ T.hbinds cq hcq)
+  obtain ⟨b, hb, hall⟩ := bind_holes_resolve _ hv cq.1 hc cq.2 a ha
+  exact ⟨a, b, ha, hb, hall⟩
+
+#print axioms convert_c03_partial
 
 /-! ## 7. Non-vacuity: a concrete workbook, its text, and the theorems applied to it -/
 
